@@ -88,8 +88,8 @@ PROPS = {
                 'least one atom read. soak: four families of 10^5 (thorough 10^6) atoms whose cursors lie beyond 16 bits (ring closure after a long '
                 'chain, alternating bond symbols, dot-separated rings, branches), every atom range, ring-closure range and bond cursor in both '
                 'directions compared with the independent interpreter',
-        'soak': {'quick': [('trace:ringtail', 100000), ('trace:bondchain', 100000), ('trace:ringlist', 100000), ('trace:comb', 100000)],
-                 'thorough': [('trace:ringtail', 1000000), ('trace:bondchain', 1000000), ('trace:ringlist', 1000000), ('trace:comb', 1000000)]},
+        'soak': {'quick': [('trace:ringtail', 100000), ('trace:bondchain', 100000), ('trace:ringlist', 100000), ('trace:comb', 100000), ('trace:branchchain', 100000)],
+                 'thorough': [('trace:ringtail', 1000000), ('trace:bondchain', 1000000), ('trace:ringlist', 1000000), ('trace:comb', 1000000), ('trace:branchchain', 1000000)]},
         'assumptions': ASSUME_COMMON,
     },
     'C04': {
@@ -120,9 +120,11 @@ PROPS = {
             {'name': 'read', 'fields': ['V', 'D'], 'nontrivial': nontrivial_read},
         ],
         'soak': {'quick': [('chain', 200000), ('dots', 200000), ('branches', 100000), ('ringlist', 200000), ('ringchain', 290),
-                           ('branchchain', 300000), ('macrocycle', 300000), ('comb', 200000), ('singlechain', 300000), ('dirchain', 300000)],
+                           ('branchchain', 300000), ('macrocycle', 300000), ('comb', 200000), ('singlechain', 300000), ('dirchain', 300000),
+                           ('trace:branchchain', 300000), ('trace:chain', 300000), ('trace:macrocycle', 300000), ('trace:dots', 200000), ('trace:branches', 100000)],
                  'thorough': [('chain', 1000000), ('dots', 1000000), ('branches', 500000), ('ringlist', 1000000), ('ringchain', 290), ('digits', 300000),
-                              ('branchchain', 1000000), ('macrocycle', 1000000), ('comb', 1000000), ('singlechain', 1000000), ('dirchain', 1000000)]},
+                              ('branchchain', 1000000), ('macrocycle', 1000000), ('comb', 1000000), ('singlechain', 1000000), ('dirchain', 1000000),
+                              ('trace:branchchain', 1000000), ('trace:chain', 1000000), ('trace:macrocycle', 1000000), ('trace:dots', 1000000), ('trace:branches', 500000)]},
         'rule': 'depth: six size families with constant nesting (chain, dot list, branches on one atom, dot-separated rings, ring chain, ring digit '
                 'list) at 1..5000 (thorough 12000) atoms and two nested families up to depth 200: the activation counter of the hook is compared '
                 'with the model depth on every string; read: the same comparison on the S-read strings; soak: read -> build -> walk -> write -> '
